@@ -174,6 +174,20 @@ def one_tree(tspec, acc, rnd, sample=False, forced=None):
                 for _w, alts in ex.ext_required_nodes:
                     explained |= alts
                 acc.count("unexplained_external_nodes", len(ext - explained))
+        # file exclusion patterns are about files: one that textually matches the NAME of an imported external module
+        # must not remove that module (only external exclusion patterns may)
+        if externals_seen and (forced is None or forced.get("file_excl")):
+            e = rnd.choice(sorted(externals_seen)) if forced is None else forced["file_excl"][0].strip("*")
+            px = ("*" + e.split(".")[-1] + "*",) if forced is None else tuple(forced["file_excl"])
+            bx, bxc = scan("exclude+file-exclusion", exclusions=px)
+            ix, ixc = scan("include+file-exclusion", exclude_external_libraries=False, exclusions=px)
+            ixc["file_excl"] = list(px)
+            HUB.case = ixc
+            attribute_scan_findings(ix, {"external": "C10", "hierarchy": "C10"}, ixc)
+            acc.count("include_scans_with_file_exclusion_matching_an_external_name")
+            gi, bi2 = {n for n in ix.nodes if internal(n)}, {n for n in bx.nodes if internal(n)}
+            if gi != bi2:
+                HUB.violation("C10", "internal-modules-changed-by-external-options", "internal modules differ between exclude and include mode under the same file exclusion", {"file_exclusions": list(px), "added": sorted(gi - bi2), "removed": sorted(bi2 - gi)})
         acc.count("trees")
         if sample:
             acc.sample({"files": {k: v for k, v in list(tspec["files"].items())[:3]}, "module_path": mp_rel or ".", "configs": [c["kw"] for _s, c in configs], "externals_in_include_mode": sorted(externals_seen)[:10]})
@@ -183,12 +197,12 @@ def one_tree(tspec, acc, rnd, sample=False, forced=None):
 
 def replay(case, acc):
     rounds = [tuple(case["round"])] if case.get("round") else []
-    one_tree(case["spec"], acc, random.Random(0), forced={"mp": case["mp"], "rounds": rounds})
+    one_tree(case["spec"], acc, random.Random(0), forced={"mp": case["mp"], "rounds": rounds, "file_excl": case.get("file_excl")})
 
 
 def floors(acc, tier):
     why = []
-    for c, n in (("config_comparisons", 200), ("patterns_matching_internal_names", 20), ("patterns_matching_externals", 20), ("nested_external_nodes", 50)):
+    for c, n in (("config_comparisons", 200), ("patterns_matching_internal_names", 20), ("patterns_matching_externals", 20), ("nested_external_nodes", 50), ("include_scans_with_file_exclusion_matching_an_external_name", 50)):
         if acc.counters[c] < n:
             why.append(f"{c}: only {acc.counters[c]}")
     if acc.counters["scan_model_errors"]:
